@@ -244,7 +244,89 @@ fn collect_scans(
     for child in plan.children() {
         collect_scans(ctx, child, required)?;
     }
+    // A subquery that was not decorrelated (a scalar subquery in the SELECT
+    // list, say) lives inside an EXPRESSION of this node, not among its
+    // children — and the re-bound statement reads its tables just the same.
+    let mut nested: Vec<&LogicalPlan> = Vec::new();
+    for e in node_expressions(plan) {
+        collect_subquery_plans(e, &mut nested);
+    }
+    for sub in nested {
+        collect_scans(ctx, sub, required)?;
+    }
     Ok(())
+}
+
+/// The expressions a plan node evaluates itself.
+fn node_expressions(plan: &LogicalPlan) -> Vec<&crate::planner::Expr> {
+    match plan {
+        LogicalPlan::Project(n) => n.exprs.iter().collect(),
+        LogicalPlan::Filter(n) => vec![&n.predicate],
+        LogicalPlan::Aggregate(n) => n.group_by.iter().chain(n.aggregates.iter()).collect(),
+        LogicalPlan::Join(n) => n
+            .on
+            .iter()
+            .flat_map(|(l, r)| [l, r])
+            .chain(n.filter.iter())
+            .collect(),
+        LogicalPlan::Sort(n) => n.order_by.iter().map(|s| &s.expr).collect(),
+        _ => Vec::new(),
+    }
+}
+
+/// Subquery plans embedded anywhere in an expression.
+fn collect_subquery_plans<'a>(e: &'a crate::planner::Expr, out: &mut Vec<&'a LogicalPlan>) {
+    use crate::planner::Expr;
+    match e {
+        Expr::ScalarSubquery(plan) => out.push(plan),
+        Expr::Exists { subquery, .. } => out.push(subquery),
+        Expr::InSubquery { expr, subquery, .. } => {
+            collect_subquery_plans(expr, out);
+            out.push(subquery);
+        }
+        Expr::BinaryExpr { left, right, .. } => {
+            collect_subquery_plans(left, out);
+            collect_subquery_plans(right, out);
+        }
+        Expr::UnaryExpr { expr, .. } | Expr::Cast { expr, .. } | Expr::Alias { expr, .. } => {
+            collect_subquery_plans(expr, out)
+        }
+        Expr::Aggregate { args, .. } | Expr::ScalarFunc { args, .. } => {
+            for a in args {
+                collect_subquery_plans(a, out);
+            }
+        }
+        Expr::Case {
+            operand,
+            when_then,
+            else_expr,
+        } => {
+            if let Some(o) = operand {
+                collect_subquery_plans(o, out);
+            }
+            for (w, t) in when_then {
+                collect_subquery_plans(w, out);
+                collect_subquery_plans(t, out);
+            }
+            if let Some(el) = else_expr {
+                collect_subquery_plans(el, out);
+            }
+        }
+        Expr::InList { expr, list, .. } => {
+            collect_subquery_plans(expr, out);
+            for i in list {
+                collect_subquery_plans(i, out);
+            }
+        }
+        Expr::Between {
+            expr, low, high, ..
+        } => {
+            collect_subquery_plans(expr, out);
+            collect_subquery_plans(low, out);
+            collect_subquery_plans(high, out);
+        }
+        _ => {}
+    }
 }
 
 /// Column names an expression mentions.
